@@ -589,6 +589,9 @@ impl Calendar {
             AnyCalendarKind::Ethiopian if era::ETHIOPIC_ERA_IDENTIFIERS.contains(era_alias) => {
                 Some(era::ETHIOPIC_ERA)
             }
+            AnyCalendarKind::Ethiopian if *era_alias == tinystr!(19, "ethiopic-inverse") => {
+                Some(era::ETHIOPIC_INVERSE_ERA)
+            }
             AnyCalendarKind::Ethiopian
                 if era::ETHIOPIC_ETHOPICAA_ERA_IDENTIFIERS.contains(era_alias) =>
             {
